@@ -121,7 +121,11 @@ Section WithBuiltins.
         | VElement name =>
             let s1 := fs_push s (declarations z) in
             let acc1 := if is_namespace_known s1 (ns_of_name name) then acc else acc ++ [ns_of_name name] in
-            let acc2 := fold_left (fun a n => if is_namespace_known s1 (ns_of_name n) then a else a ++ [ns_of_name n])
+            (* an attribute name in a namespace needs a non-empty prefix: the default namespace does not resolve it *)
+            let acc2 := fold_left (fun a n =>
+                                     let ns := ns_of_name n in
+                                     let prefixed := match attribute_prefix empty_prefix no_ns s1 ns with PMissing => false | _ => true end in
+                                     if is_namespace_known s1 ns && (N.eqb ns no_ns || prefixed) then a else a ++ [ns])
                                   (attr_names z) acc1 in
             unresolved_edges es' s1 acc2
         | _ => unresolved_edges es' s acc
